@@ -212,3 +212,23 @@ PROPS["C08"] = {
             "runs of 2-6 encrypted responses under a counting RandReader locate each content key and IV in the stream (vs model layout); key/IV distinctness under crypto/rand; "
             "SP side: responses with assertions encrypted by the IdP, by an attacker, to a foreign key, signed/unsigned at both levels with perturbed conditions vs the struct-level model",
 }
+
+PROPS["C01"] = {
+    "modules": ["SamlVerif.Props.C01"],
+    "trusted_base": ["symbolic cryptography: signature values, digest values and certificates are tokens; a ledger (built by the harness from every real signing event, honest or attacker) says which key signed which canonical SignedInfo "
+                     "and which canonical content a digest token stands for (unforgeability + collision resistance are the hypothesis HonestLedger of C01_no_forgery)",
+                     "modelled, not verified: XML tokenisation (xrv, encoding/xml, etree reader) - the model starts from the parsed tree; what encoding/xml extracts from an element (struct views of the Response header, of each candidate Assertion "
+                     "and of each ds:Signature) and what xmlenc decrypts are inputs computed by the library's own code in the harness (hook verif_hooks.go exposes unmarshalElement / decryptElement); "
+                     "that a struct view is a function of the element's canonical form without the removed Signature is NOT proved (tested by comment / CDATA / processing-instruction / prefix / white-space operations and the forgery oracle)",
+                     "exclusive canonicalisation is modelled by an injective rendering of exactly the information the bytes carry (Model/Tree.lean header); other canonicalisation algorithms are outside the model (honest signers use exc-c14n)",
+                     "ParseXMLArtifactResponse's envelope handling is covered at struct level only (C03/C04 artifact theorems)"],
+    "assumptions": ["honest signers sign with enveloped-signature + exclusive c14n and one Reference per SignedInfo (what this library's IdP and the harness do)",
+                    "certificates are within their validity period at the validation clock"],
+    "rule": "construction scripts: honest phase (assertion for alice signed / Response signed / both / neither, by idp / idp2 / attacker key, plaintext or encrypted to the SP) x trust configuration "
+            "(metadata with one or two signing certificates, with encryption-use attacker certificate, use omitted, encryption-only, pinned certificate, sha256/sha512 fingerprint) x attacker phase of 0-3 operations from 32 "
+            "(evil assertion as sibling before/after, replacing the original and keeping a copy of its Signature with the original inside ds:Object, original nested inside the evil one, evil inside the original Signature's Object, "
+            "signed Response wrapped in an evil Response with or without its Signature copied up, signatures stripped or duplicated, NameID edited, comments / CDATA / processing instructions / white space inserted, ID and Reference URI edits, "
+            "KeyInfo removed / attacker certificate / second certificate / KeyValue only, foreign-namespace Signature naming the trusted certificate, foreign-namespace Assertion, prefix renamed or re-declared, unused and undeclared prefixes, "
+            "nested Signature inside signed content, re-encryption of the evil or the original assertion to the SP, Conditions dropped, evil assertion signed by the attacker); every single operation on all six valid bases, "
+            "(thorough: every ordered pair); the real ParseXMLResponse decides the bytes, the model decides the dumped tree + ledger + views",
+}
